@@ -368,9 +368,38 @@ theorem nodeErrs_nil_of_walkErrs {lk : Lookup} {out : List (Id × List Node)} {t
   unfold walkErrs at h
   exact (List.flatMap_eq_nil_iff.mp ((List.flatMap_eq_nil_iff.mp h) (t, nodes) hm)) n hn
 
+/-- a node without finding whose subtree is `t`: `t` is in the index and its pack is in the read set — whatever the
+kind of the node (since `fix: check ignored subtrees of non-directory nodes`). -/
+theorem subtree_indexed_of_nodeErrs_nil {lk : Lookup} {n : Node} {t : Id} (hs : n.subtree = some t)
+    (h : nodeErrs lk n = []) : ∃ e, lk .tree t = some e ∧ e.pack ∈ nodePacks lk n := by
+  have key : subtreeErrs lk (some t) = [] → ∃ e, lk .tree t = some e ∧ e.pack ∈ subtreePacks lk (some t) := by
+    intro h'
+    simp only [subtreeErrs] at h'
+    by_cases hnz : t = nullId
+    · simp [hnz] at h'
+    · simp only [hnz, if_false] at h'
+      cases hl : lk .tree t with
+      | none => simp [hl] at h'
+      | some e => exact ⟨e, rfl, by simp [subtreePacks, hnz, hl]⟩
+  unfold nodeErrs at h
+  unfold nodePacks
+  cases hk : n.kind with
+  | file =>
+    simp only [hk, hs, List.append_eq_nil_iff] at h
+    obtain ⟨e, he, hp⟩ := key h.2
+    exact ⟨e, he, by simp only [hs]; exact List.mem_append_right _ hp⟩
+  | dir =>
+    simp only [hk, hs] at h
+    obtain ⟨e, he, hp⟩ := key h
+    exact ⟨e, he, by simp only [hs]; exact hp⟩
+  | other =>
+    simp only [hk, hs] at h
+    obtain ⟨e, he, hp⟩ := key h
+    exact ⟨e, he, by simp only [hs]; exact hp⟩
+
 /-- Soundness of the check model (with the root-tree packs in the read set). -/
 theorem check_sound {z : Sizes} {r : Repo} {lk : Lookup} {fuel : Nat} (hlk : LkSound r lk)
-    (hd : DirsOnly r lk) (h : check z true r lk fuel = .findings []) :
+    (h : check z true r lk fuel = .findings []) :
     ∀ s ∈ r.snaps, RestoresCorrectly r lk s.tree := by
   unfold check checkW at h
   split at h
@@ -399,22 +428,12 @@ theorem check_sound {z : Sizes} {r : Repo} {lk : Lookup} {fuel : Nat} (hlk : LkS
           obtain ⟨nodes', hmem, hrd'⟩ := reach_processed hw hroot hpar
           rw [hrd] at hrd'
           cases hrd'
-          have hdir : n.kind = .dir := hd _ _ hrd n hn (by simp [hsub])
           have hne := nodeErrs_nil_of_walkErrs he hmem hn
-          unfold nodeErrs at hne
-          simp only [hdir, hsub] at hne
-          split at hne
-          · simp at hne
-          · rename_i hnz
-            cases hl' : lk .tree t with
-            | none => simp [hl'] at hne
-            | some e =>
-              refine ⟨e, rfl, ?_⟩
-              unfold readSet
-              apply List.mem_append_right
-              apply mem_walkPacks hmem hn
-              unfold nodePacks
-              simp [hdir, hsub, hnz, hl']
+          obtain ⟨e, he', hp'⟩ := subtree_indexed_of_nodeErrs_nil hsub hne
+          refine ⟨e, he', ?_⟩
+          unfold readSet
+          apply List.mem_append_right
+          exact mem_walkPacks hmem hn hp'
       obtain ⟨nodes, hmem, hrd⟩ := reach_processed hw hroot ht
       refine ⟨?_, nodes, hrd, ?_⟩
       · obtain ⟨e, he', hin⟩ := hkey t ht
@@ -422,7 +441,8 @@ theorem check_sound {z : Sizes} {r : Repo} {lk : Lookup} {fuel : Nat} (hlk : LkS
       · intro n hn hfile
         have hne := nodeErrs_nil_of_walkErrs he hmem hn
         unfold nodeErrs at hne
-        simp only [hfile] at hne
+        simp only [hfile, List.append_eq_nil_iff] at hne
+        replace hne := hne.1
         cases hc : n.content with
         | none => simp [hc] at hne
         | some ids =>
@@ -436,7 +456,7 @@ theorem check_sound {z : Sizes} {r : Repo} {lk : Lookup} {fuel : Nat} (hlk : LkS
           apply mem_walkPacks hmem hn
           unfold nodePacks
           simp only [hfile, hc, Option.getD_some]
-          exact List.mem_filterMap.mpr ⟨d, hdm, by simp [he']⟩
+          exact List.mem_append_left _ (List.mem_filterMap.mpr ⟨d, hdm, by simp [he']⟩)
 
 /-- The executable restorability verdict the driver prints is sound for the specification. -/
 theorem blobOkB_sound {r : Repo} {lk : Lookup} {t : BT} {id : Id} (h : blobOkB r lk t id = true) :
